@@ -30,9 +30,10 @@ def shipped(name):
     return SHIPPED[name]
 
 
-CASES = ["A:w%d" % w for w in (0, 2, 4, 6)] + ["A:len", "B:w0", "B:len", "mex:w0", "mex:w17", "mex:len", "nimitz:w30", "mex:long"]
+CASES = ["A:w%d" % w for w in (0, 2, 4, 6)] + ["A:len", "B:w0", "B:len", "mex:w0", "mex:w17", "mex:len", "nimitz:w30", "mex:long",
+         "A:tail", "mex:tail"]
 HARNESSES = [
-    {"fn": "h_fields", "cases": CASES, "quick_cases": ["A:w2", "A:len", "mex:w17", "mex:long", "B:len"], "timeout": {"quick": 120, "thorough": 400}},
+    {"fn": "h_fields", "cases": CASES, "quick_cases": ["A:w2", "A:len", "mex:w17", "mex:long", "B:len", "A:tail"], "timeout": {"quick": 120, "thorough": 400}},
     {"fn": "h_two_tables", "cases": ["AB", "BA"], "timeout": {"quick": 90, "thorough": 300}},
 ]
 BOUNDS = {"tables": "two synthetic field tables (sizes 1,2,1,2,2,1 and 2,1,1,2; both accepted header layouts) and both shipped tables",
@@ -116,6 +117,12 @@ def h_fields() -> bool:
                 L = cand
         data = fill[:L]
         cps = list(data)
+    elif what == "tail":
+        # bytes past the full record (symbolic, zero included) are still part of the dump
+        L = full + 3
+        w = sym_bytes("w", 3)
+        data = mkbytes(fill[:full], w)
+        cps = list(fill[:full]) + [w[0], w[1], w[2]]
     else:
         L = 70 if what == "long" else full + 2
         p = 64 if what == "long" else int(what[1:])
